@@ -750,6 +750,13 @@ fn build(doc: &DocSpec) -> Result<Built, String> {
     Ok(Built { bytes, fonts, gs: gss, extras, aux: auxs })
 }
 
+/// where two descriptions part: `given ...X... -- reloaded ...Y...` with some context before the first differing character
+fn first_difference(given: &str, got: &str) -> String {
+    let k = given.chars().zip(got.chars()).take_while(|(a, b)| a == b).count();
+    let from = k.saturating_sub(60);
+    let cut = |s: &str| s.chars().skip(from).take(200).collect::<String>();
+    format!("differs at character {}: given `...{}` -- reloaded `...{}`", k, cut(given), cut(got))
+}
 fn ops_print(ops: &[Op]) -> Vec<String> { ops.iter().map(|o| format!("{:?}", o)).collect() }
 
 /// all the ways in which the produced file differs from what was given (empty = C10 holds for this document)
@@ -793,7 +800,7 @@ fn check_doc(doc: &DocSpec) -> Vec<String> {
                 if res.fonts.len() != built.fonts[n].len() { bad.push(format!("page {}: {} fonts given, {} reloaded", n, built.fonts[n].len(), res.fonts.len())); }
                 for (key, want) in &built.fonts[n] {
                     match res.fonts.get(&name(key)).map(|l| l.load(&resolver)) {
-                        Some(Ok(f)) => { let got = font_print(&f); if &got != want { bad.push(format!("page {}: font /{} given    {} -- reloaded {}", n, key, want, got)); } }
+                        Some(Ok(f)) => { let got = font_print(&f); if &got != want { bad.push(format!("page {}: font /{} {}", n, key, first_difference(want, &got))); } }
                         Some(Err(e)) => bad.push(format!("page {}: font /{} does not load: {:?}", n, key, e)),
                         None => bad.push(format!("page {}: font /{} is not listed", n, key)),
                     }
